@@ -18,7 +18,7 @@ OPTION_POOLS = {
               "account": ["acc", None], "bogus_option": [1, None]},
     "sge": {"cores": [1, 2, 4], "memory": ["8g", "2g"], "walltime": ["00:10:00"], "queue": ["q", None],
             "bogus_option": [1]},
-    "lsf": {"cores": [1, 2], "memory": ["4GB"], "queue": ["normal", "long"], "bogus_option": [1]},
+    "lsf": {"cores": [1, 2], "memory": ["4GB", "8GB"], "queue": ["normal", "long", None], "bogus_option": [1]},
     "local": {"bogus_option": [1]},
 }
 
